@@ -370,6 +370,25 @@ def run(repo, outdir):
         consts.append(("vmTimeoutCycle", "exec.c instructions between two clock reads", int(m.group(2))))
     else:
         unparsed.append("exec.c timeout cadence"); consts.append(("vmTimeoutCycle", "exec.c", 0))
+    # every OTHER write of `cycle` inside yr_execute_code (the declaration `int cycle = 0;`, the guard's `++cycle` and the
+    # `cycle = 0;` after a clock read are the three expected ones): the opcode whose `case` body contains it
+    cycle_writers = []
+    mfn = re.search(r"\bint\s+yr_execute_code\s*\(.*?\n\}", execc, flags=re.S)
+    if mfn:
+        body = mfn.group(0)
+        expected = []
+        for pat in (r"\bint\s+cycle\s*=\s*0\s*;", r"context->timeout\s*>\s*0ULL\s*&&\s*\+\+cycle\b",
+                    r"result\s*=\s*ERROR_SCAN_TIMEOUT;\s*stop\s*=\s*true;\s*\}\s*cycle\s*=\s*0\s*;"):
+            k = re.search(pat, body)
+            if k:
+                expected.append((k.start(), k.end()))
+        for w in re.finditer(r"(\+\+|--)\s*cycle\b|\bcycle\s*(\+\+|--|[-+*/%&|^]?=(?!=)|<<=|>>=)|&\s*cycle\b", body):
+            if any(a <= w.start() and w.end() <= b for a, b in expected):
+                continue
+            labels = re.findall(r"\bcase\s+(OP_\w+)\s*:", body[:w.start()])
+            cycle_writers.append(labels[-1] if labels else "?")
+    else:
+        unparsed.append("exec.c yr_execute_code body")
     m = re.search(r"if\s*\(\s*i\s*%\s*(\d+)\s*==\s*0\s*&&\s*scanner->timeout\s*>\s*0\s*\)", scannerc)
     if m:
         consts.append(("blockTimeoutStride", "scanner.c bytes between two clock reads", int(m.group(1))))
@@ -394,6 +413,13 @@ def run(repo, outdir):
     nsat = len(re.findall(r"yylval->integer\s*==\s*LLONG_MAX\s*&&\s*errno\s*==\s*ERANGE\s*\)\s*\{[^{}]*error\s*\(\s*ERROR_INTEGER_OVERFLOW\s*\)", lexer))
     if nsat < 3:
         unparsed.append("lexer.l strtoll saturation tests (%d of 3)" % nsat)
+
+    # the three integer-literal rules: radix and whether `errno = 0;` directly precedes the strtoll whose ERANGE is tested
+    lit_rules = []
+    for m in re.finditer(r"(errno\s*=\s*0\s*;\s*)?yylval->integer\s*=\s*strtoll\s*\(\s*yytext(?:\s*\+\s*\d+)?\s*,\s*&endptr\s*,\s*(\d+)\s*\)\s*;", lexer):
+        lit_rules.append((int(m.group(2)), m.group(1) is not None))
+    if sorted(r_[0] for r_ in lit_rules) != [8, 10, 16]:
+        unparsed.append("lexer.l integer literal rules (radices %s)" % sorted(r_[0] for r_ in lit_rules))
 
     guards = []
 
@@ -601,6 +627,13 @@ def run(repo, outdir):
     out.append("  deriving DecidableEq, Repr")
     out.append("")
     out.append("def cfgKeys : List CfgKey := [%s]" % ", ".join('⟨"%s", %d, %d, %d, %d, %d, %d, %d⟩' % r_ for r_ in rows))
+    out.append("")
+    out.append("/-- lexer.l integer literal rules: (radix, `errno = 0;` directly before the `strtoll` whose `errno == ERANGE` is tested) -/")
+    out.append("def litRules : List (Nat × Bool) := [%s]" % ", ".join("(%d, %s)" % (a_, "true" if b_ else "false") for a_, b_ in lit_rules))
+    out.append("")
+    out.append("/-- exec.c `yr_execute_code`: opcodes whose `case` body writes the timeout counter `cycle` (besides its declaration, the")
+    out.append("    guard's `++cycle` and the `cycle = 0` after a clock read) -/")
+    out.append("def vmCycleWriters : List String := [%s]" % ", ".join('"%s"' % w for w in cycle_writers))
     out.append("")
     out.append("def unparsedItems : List String := [%s]" % ", ".join('"%s"' % u.replace('"', "'") for u in unparsed))
     out.append("")
